@@ -160,6 +160,7 @@ pub fn run_fault(kvs: &[Kv], reference: &[u8], api: Api, at: usize, fault: Ans, 
 fn fault_json(a: Ans) -> Value {
     match a {
         Ans::Zero => json!("zero"),
+        Ans::Interrupted => json!("interrupted"),
         Ans::Fail(k) => json!(format!("{:?}", k)),
         _ => json!("?"),
     }
@@ -168,6 +169,7 @@ fn fault_json(a: Ans) -> Value {
 fn fault_from(v: &Value) -> Ans {
     match v.as_str().unwrap() {
         "zero" => Ans::Zero,
+        "interrupted" => Ans::Interrupted,
         "BrokenPipe" => Ans::Fail(ErrorKind::BrokenPipe),
         "PermissionDenied" => Ans::Fail(ErrorKind::PermissionDenied),
         _ => Ans::Fail(ErrorKind::Other),
@@ -193,7 +195,7 @@ pub fn replay(case: &Value) -> Result<String, String> {
 pub fn plan(tier: Tier) -> Plan {
     let mut p = Plan::new("C11", "fault_enumeration");
     let thorough = tier.thorough();
-    p.rule = "for each input (the C07 list - every emission site: header, each node form, index table, count byte, footer, checksum, flush - plus every subset of U_ab2 as map and, from 3 keys, as set; a ten-key set and a 40-way fan-out set) W = measured number of sink calls of the fault-free run; for every call index 0..W (writes and the final flush), every failure kind {Err(Other), Err(BrokenPipe), Err(PermissionDenied), Ok(0)}, single and persistent, through MapBuilder/SetBuilder/raw::Builder (into_inner and finish) with single inserts and with the whole history as one extend_iter / extend_stream call, and additionally with one benign deviation (every short write / Interrupted at every earlier call) before the fault: the API call during which the failing sink call happens must return Err(Io); no panic; no Ok from a call that saw the fault; accepted bytes stay a prefix of the fault-free output. non-trivial = every injected fault (all distinct by index x kind x mode x api)".into();
+    p.rule = "for each input (the C07 list - every emission site: header, each node form, index table, count byte, footer, checksum, flush - plus every subset of U_ab2 as map and, from 3 keys, as set; a ten-key set and a 40-way fan-out set) W = measured number of sink calls of the fault-free run; for every call index 0..W (writes and the final flush), every failure kind {Err(Other), Err(BrokenPipe), Err(PermissionDenied), Ok(0); for flush also Err(Interrupted)}, single and persistent, through MapBuilder/SetBuilder/raw::Builder (into_inner and finish) with single inserts and with the whole history as one extend_iter / extend_stream call, and additionally with one benign deviation (every short write / Interrupted at every earlier call) before the fault: the API call during which the failing sink call happens must return Err(Io); no panic; no Ok from a call that saw the fault; accepted bytes stay a prefix of the fault-free output. non-trivial = every injected fault (all distinct by index x kind x mode x api)".into();
     p.assumptions = vec![
         "the caller stops at the first Err (as with `?`); behaviour of a builder that is used after it returned an error is not asserted".into(),
         "Ok(0) is only injected into write calls, never into flush".into(),
@@ -226,7 +228,9 @@ pub fn plan(tier: Tier) -> Plan {
             st.max("max_sink_calls", w as u64);
             st.sample(|| json!({"input": name, "kvs": kvs_str(&kvs), "sink_calls": w}));
             for at in 0..w {
-                for fault in FAULTS {
+                // an Interrupted error from flush() is an error return like any other
+                // (write calls retry it, flush does not)
+                for fault in FAULTS.iter().cloned().chain(if calls[at].is_flush { Some(Ans::Interrupted) } else { None }) {
                     if calls[at].is_flush && fault == Ans::Zero {
                         continue;
                     }
